@@ -3,6 +3,8 @@
 pub mod depth;
 pub mod dt;
 pub mod fuzz;
+pub mod spanned;
+pub mod spans;
 pub mod tree;
 pub mod util;
 
